@@ -735,7 +735,18 @@ mod tcp {
                     env.listeners.push(l);
                     a
                 }
-                "err" => closed_port(env, *f),
+                "err" => match (call, shared_port) {
+                    // through Service::call every candidate is attempted at the URI's port: own that port on this address too
+                    // (bound, never listening), otherwise another process's listener there would answer
+                    (true, Some(p)) => {
+                        let s = if *f == 4 { TcpSocket::new_v4().ok()? } else { TcpSocket::new_v6().ok()? };
+                        s.bind(SocketAddr::new(lo(*f), p)).ok()?;
+                        let a = s.local_addr().ok()?;
+                        env.bound.push(s);
+                        a
+                    }
+                    _ => closed_port(env, *f),
+                },
                 _ => {
                     nv += 1;
                     env.never[nv - 1].0
